@@ -18,7 +18,7 @@ import (
 
 // Run is the entry point for C06.
 func Run(ctx *core.Ctx) {
-	ctx.Rule = "cases: calls of Renderer.Execute / soyhtml.EvalExpr / soy.ParseGlobals on (a) the TLC-enumerated operator x operand-type grid and function x argument grid of SoyExprCases (ill-typed cells included; TLC checks the oracle is total on them), (b) every print directive x arity 0..3 x value class, (c) every command fed every value class, missing $ij, undefined optionals, range steps <= 0, (d) duplicate template names across files and failures at call depth 1..4, (e) seeded generated bundles rendered with arbitrary JSON-shaped data; each runs in a worker subprocess with a deadline and an address-space cap; obligation: returns, no panic; non-trivial = all; distinct by (source, data)"
+	ctx.Rule = "cases: calls of Renderer.Execute / soyhtml.EvalExpr / soy.ParseGlobals on (a) the TLC-enumerated operator x operand-type grid and function x argument grid of SoyExprCases (ill-typed cells included; TLC checks the oracle is total on them), (b) every print directive x arity 0..3 x value class, (c) every command fed every value class, missing $ij, undefined optionals, range steps <= 0, (d) duplicate template names across files and failures at call depth 1..4, messages rendered with crafted inconsistent catalogues (unknown placeholder, unknown plural variable, too few plural cases, out-of-range plural index, nil parts), (e) seeded generated bundles rendered with arbitrary JSON-shaped data; each runs in a worker subprocess with a deadline and an address-space cap; obligation: returns, no panic; non-trivial = all; distinct by (source, data)"
 	ctx.Assumptions = append(ctx.Assumptions,
 		"a hang or worker death counts only if it reproduces when the case is re-run alone in a fresh worker",
 		"recursion is restricted to data-bounded depth; lists are bounded (no range beyond 10^6)")
@@ -29,6 +29,7 @@ func Run(ctx *core.Ctx) {
 	directiveCases(add)
 	commandCases(add)
 	registryCases(add)
+	msgBundleCases(add)
 	randomDataCases(ctx, add, ctx.Pick(600, 20000))
 	ctx.AddEvals(int64(len(cases)))
 	res := RunIsolated(cases, 10*time.Second)
